@@ -16,7 +16,7 @@ RULE = ('enumeration: for every transfer shape (BAM / RTS-CTS x J1939-21 / -22 x
         'distinct = distinct scenario JSON')
 REQUIRED_PROBES = ['fault_fired_runs', 'gave_up_sessions', 'abort3_frames', 'followup_ok']
 ASSUMPTIONS = ['silence models an unplugged node: it keeps running but its frames neither go out nor come in; it is re-plugged before the follow-up transfer',
-               'give-up bound used: last transfer frame seen or sent by the stack + T + Lmax + 10 ms polling, with T = 3 s for an FD originator that has sent its end-of-message status and 1.25 s otherwise (never tighter than the standard)']
+               'give-up bound: last transfer frame sent by / delivered to the stack + T + Lmax + 10 ms polling, T being the standard timeout of the state that event leads to: T1 0.75 s after a received DT/BAM, T2 1.25 s after an own CTS, T3 1.25 s after an own RTS/last DT, T4 1.05 s after a received hold, T5 3 s after an own FD end-of-message status (never tighter than the standard)']
 
 O_ADDR, R_ADDR, R2_ADDR = 0x10, 0x20, 0x30
 POLL_NS = 5_000_000
@@ -147,6 +147,7 @@ def execute(scn, keep_log=False, hook=None):
     horizon = (npk + 2) * (bam_iv if mode == 'bam' else 0.02) + 3.0 + 1.0
     sim.run_for(horizon)
     polling['on'] = False
+    t_first_end = sim.now
     first_frames = len(bus.frames)
     first_deliveries = list(w.deliveries)
     fired = sum(bus.fired.values())
@@ -192,21 +193,49 @@ def execute(scn, keep_log=False, hook=None):
     else:
         stats['nothing_delivered'] = 1
 
-    # ---- (2) give-up bound
+    # ---- (2) give-up bound: the standard's timeout for the state the stack is in, derived from the last
+    #      transfer frame it sent (incl. frames suppressed while unplugged) or that was delivered to it
+    def kind_of(cid, d):
+        i = rc.Id(cid)
+        if not fd:
+            if i.pf == rc.PF_TP_DT:
+                return 'dt'
+            if i.pf == rc.PF_TP_CM and len(d) == 8:
+                return {rc.RTS: 'rts', rc.CTS: 'hold' if d[1] == 0 else 'cts', rc.EOMA: 'eoma', rc.BAM: 'bam', rc.ABORT: 'abort'}.get(d[0], 'other')
+        else:
+            if i.pf == rc.PF_FD_TP_DT:
+                return 'dt'
+            if i.pf == rc.PF_FD_TP_CM and len(d) >= 12:
+                return {rc.FD_RTS: 'rts', rc.FD_CTS: 'hold' if d[7] == 0 else 'cts', rc.FD_EOMS: 'eoms', rc.FD_EOMA: 'eoma', rc.FD_BAM: 'bam',
+                        rc.FD_ABORT: 'abort'}.get(d[0] & 0xF, 'other')
+        return 'other'
+    # (direction, kind) -> standard timeout [s] of the state entered by that event
+    T_STATE = {('tx', 'rts'): 1.25, ('tx', 'dt'): 1.25, ('rx', 'hold'): 1.05, ('tx', 'eoms'): 3.0 if mode == 'cmdt' else 0.05,
+               ('tx', 'cts'): 1.25, ('tx', 'hold'): 1.25, ('rx', 'dt'): 0.75, ('rx', 'bam'): 0.75, ('rx', 'rts'): 1.25, ('rx', 'cts'): 1.25,
+               ('rx', 'eoms'): 0.05, ('rx', 'eoma'): 0.05, ('tx', 'eoma'): 0.05, ('rx', 'abort'): 0.05, ('tx', 'abort'): 0.05, ('tx', 'bam'): 0.25}
     lmax = scn['kernel']['lmax_ns']
     for n, s in w.stacks.items():
-        sent_eoms = fd and n == 'O' and mode == 'cmdt' and any(
-            rc.Id(cid).pf == rc.PF_FD_TP_CM and len(d) >= 12 and (d[0] & 0xF) == rc.FD_EOMS for (_t, cid, d) in tx_log[n])
-        T = 3.0 if sent_eoms else 1.25
-        bound = last_act[n] + int(T * 1e9) + lmax + 2 * POLL_NS + 2_000_000
+        evs = [(t, 'tx', kind_of(cid, d)) for (t, cid, d) in tx_log[n]] + [(t, 'rx', kind_of(fr.can_id, fr.data)) for (t, fr) in s.port.rx_log]
+        # a received abort does not start a new wait: the state (and its timeout) is that of the event before it
+        evs = [e for e in evs if e[2] != 'other' and e[0] <= t_first_end and (e[1], e[2]) != ('rx', 'abort')]
+        evs.sort(key=lambda e: e[0])
+        if evs:
+            last_t, direction, kind = evs[-1]
+            # several events at the same instant (burst): take the most demanding one
+            T = max(T_STATE.get((dr, kd), 1.25) for (t, dr, kd) in evs if t == last_t)
+        else:
+            last_t, T, direction, kind = t_start, 1.25, '-', '-'
+        if mode == 'bam' and n == 'O':
+            T = max(T, bam_iv + 0.01)       # the sender is pacing, not waiting
+        bound = last_t + int(T * 1e9) + lmax + 2 * POLL_NS + 2_000_000
         t = s.tables()
         if t['rcv'] or t['snd']:
             viol.append({'clause': 'session-never-released', 'rank': 3, 'feat': {'mode': mode, 'side': n},
-                         'msg': 'stack %s still holds %s %.2f s after its last transfer frame' % (n, t, (sim.now - last_act[n]) / 1e9)})
+                         'msg': 'stack %s still holds %s %.2f s after its last transfer frame' % (n, t, (sim.now - last_t) / 1e9)})
         elif last_nonempty[n] is not None and last_nonempty[n] > bound:
-            viol.append({'clause': 'gave-up-late', 'rank': 4, 'feat': {'mode': mode, 'side': n},
-                         'msg': 'stack %s held its session until %.3f s after its last transfer frame (bound %.2f s + latency)' % (
-                             n, (last_nonempty[n] - last_act[n]) / 1e9, T)})
+            viol.append({'clause': 'gave-up-late', 'rank': 4, 'feat': {'mode': mode, 'side': n, 'after': direction + '-' + kind},
+                         'msg': 'stack %s held its session until %.3f s after its last transfer frame (%s %s; the standard allows %.2f s + latency)' % (
+                             n, (last_nonempty[n] - last_t) / 1e9, direction, kind, T)})
 
     # ---- (3) abort with reason 3 when a stack stops waiting for CTS / for connection-mode data
     def aborts_from(n):
